@@ -111,7 +111,7 @@ fn gen_nuls(t: &mut Tape, big: bool) -> Vec<NulAt> {
         _ => 2 + t.below(2),
     };
     (0..n)
-        .map(|_| match t.weighted(&[1, 1, 4, 2, if big { 6 } else { 0 }]) {
+        .map(|_| match t.weighted(&[1, if big { 3 } else { 1 }, 4, 2, if big { 6 } else { 0 }]) {
             0 => NulAt::FirstByte,
             1 => NulAt::LastByte,
             2 => NulAt::InLine(t.below(1000), t.below(50)),
@@ -139,6 +139,10 @@ pub struct LibCase {
 pub fn gen_lib_case(t: &mut Tape) -> LibCase {
     let big = t.chance(1, 12);
     let mut input = gen_lines(t, big);
+    // a last line without terminator (then NulAt::LastByte really is the file's last byte)
+    if t.chance(1, 4) && input.ends_with(b"\n") {
+        input.pop();
+    }
     let nuls = gen_nuls(t, big);
     apply_nuls(&mut input, &nuls);
     let cfg = SCfg {
@@ -254,6 +258,8 @@ pub fn check_lib(case: &LibCase) -> Verdict {
         info.class_if(nul == 0, "nul_first_byte");
         info.class_if(case.cfg.warm.is_some(), "searcher_reused_after_another_input");
         info.class_if(nul + 1 == input.len() || nul + 2 == input.len(), "nul_last_byte");
+        info.class_if(nul + 1 == input.len(), "nul_is_last_byte_of_unterminated_last_line");
+        info.class_if(nul + 1 == input.len() && input.len() > 65536, "nul_is_last_byte_of_unterminated_last_line_beyond_64KiB");
         info.class_if((65533..=65539).contains(&nul), "nul_at_64KiB_boundary");
         info.class_if(nul > 65539, "nul_beyond_first_buffer");
         info.class_if(!notices.is_empty(), "binary_notice_delivered");
@@ -300,6 +306,10 @@ pub struct CliCase {
 pub fn gen_cli_case(t: &mut Tape) -> CliCase {
     let big = t.chance(1, 5);
     let mut input = gen_lines(t, big);
+    // a last line without terminator (then NulAt::LastByte really is the file's last byte)
+    if t.chance(1, 4) && input.ends_with(b"\n") {
+        input.pop();
+    }
     let nuls = gen_nuls(t, big);
     apply_nuls(&mut input, &nuls);
     CliCase {
